@@ -21,7 +21,7 @@ ASSUMPTIONS = ["thresholds are the ones the property states: attenuation <= -40 
                ">= 90 % of its high-passed, re-aligned amplitude on its peak channel", "a 'few neighbouring channels' = the 7 nearest sites with a Gaussian footprint of sigma 0.4-0.7 site pitches (retention falls "
                "smoothly with footprint width: measured 0.94-0.97 in that range, 0.89-0.91 at sigma 1.0-1.3, which is no longer 'a few channels')", "grouped filters are compared with per-group calls using default padding on both sides"]
 REQUIRED = {"default_header_checked": 2, "labels_true_checked": 2, "labels_true_with_bad_channels": 2, "stripe_attenuations": 8, "spike_retentions": 8, "outside_checked": 6, "car_zero_reference": 10, "group_equals_separate": 20,
-            "agc_products": 20, "referencing_through_destripe": 16, "settings_through_destripe": 4, "lfp_forwarding_checked": 3}
+            "agc_products": 20, "referencing_through_destripe": 16, "settings_through_destripe": 4, "lfp_forwarding_checked": 3, "file_headers_checked": 4}
 CASE_TIMEOUT = 120.0
 KINDS = ["3B2", "NP2.1", "NP2.4", "NPultra"]
 
@@ -45,6 +45,7 @@ def gen_cases(seed, tier):
                           "layout": ["middle", "top-with-hole", "scattered", "bottom", "top"][(rep + j) % 5]})
     n = 10 if tier == "quick" else 600
     cases += [{"cls": "groups", "seed": seed * 1000 + j, "n": 4, "_w": 1} for j in range(n)]
+    cases += [{"cls": "file-header", "kind": ["3B2", "NP2.1", "NP2.4", "NP2.4-split", "NP2.4-split", "3B2"][j % 6], "seed": seed * 1000 + 400 + j, "_w": 3} for j in range(6 if tier == "quick" else 120)]
     cases += [{"cls": "through-destripe", "kind": KINDS[j % 4], "seed": seed * 1000 + 300 + j, "_w": 2} for j in range(8 if tier == "quick" else 240)]
     cases += [{"cls": "agc", "seed": seed * 1000 + j, "n": 6, "_w": 1} for j in range(n)]
     return cases
@@ -225,6 +226,50 @@ def run_case(case):
             res.check(worst <= -40.0, "destripe:bad-channel-leaks", f"{label}: channel {inside[int(np.argmax(per))]} keeps {worst:.1f} dB of the stripe level after destriping "
                       f"(repaired channels must be rebuilt from good neighbours only)", counter="stripe_attenuations")
             sigs.add((kind, kf, layout))
+        except Exception as e:
+            res.exception("destripe:exception", e, label)
+    elif cls == "file-header":
+        # the header as production code obtains it: read from the recording's metadata (any site selection, sorted or not, a whole probe or one
+        # shank of a split NP2.4 recording); the disturbance is sampled with the delays of the generator's own multiplexer model
+        import spikeglx
+        from vlib import gen_meta as G
+        from vlib.result import scratch
+        d = scratch()
+        kind0 = case["kind"]
+        kind = "NP2.4" if kind0.startswith("NP2.4") else kind0
+        mode = str(rng.choice(["dense", "random", "sorted-random", "interleaved"]))
+        sites = G.draw_sites(rng, kind, 384, mode)
+        enc = str(rng.choice(["shank", "geom"]))
+        rec = G.make(rng, kind=kind, sites=sites, encoding=enc, ns=3, raw=np.zeros((3, 385), np.int16))
+        rows = np.arange(384)
+        text = rec.meta_text
+        if kind0 == "NP2.4-split":
+            shanks = np.unique(sites[:, 0])
+            sh = int(rng.choice(shanks))
+            rows = np.flatnonzero(sites[:, 0] == sh)
+            child = G.make(rng, kind=kind, sites=sites, encoding=enc, ns=3, raw=np.zeros((3, rows.size + 1), np.int16),
+                           extra={"NP2.4_shank": sh, "nSavedChans": rows.size + 1, "snsApLfSy": f"{rows.size},0,1"})
+            text = child.meta_text
+        f = d / "hdr.ap.meta"
+        f.write_text(text)
+        sort = bool(rng.integers(0, 2))
+        kf = bool(rng.integers(0, 2))
+        ns = 6000
+        label = f"{kind0}/{enc}/{mode} header read from metadata (sort={sort}, {rows.size} channels) {'k-filter' if kf else 'CAR'}"
+        try:
+            hfile = spikeglx.geometry_from_meta(spikeglx.read_meta_data(f), sort=sort)
+            order = rows[np.asarray(hfile["ind"], int)]                  # site-table row of every returned channel
+            if rows.size < 40:
+                res.count("file_headers_skipped")
+            else:
+                st = GS.stripe(rng, ns, fs, rec.sample_shift[order], 600, 5000, float(rng.uniform(50e-6, 300e-6)))
+                out = V.destripe(st.copy(), fs, h=hfile, neuropixel_version=1 if kind == "3B2" else 2, k_filter=kf)
+                sl = slice(ns // 6, ns - ns // 6)
+                att = GS.db(GS.rms(out[:, sl]), GS.rms(hp(st, fs)[:, sl]))
+                res.measure("worst_stripe_attenuation_file_header_db", att)
+                res.check(att <= -40.0, "destripe:stripe-attenuation:header-from-file", f"{label}: stripe attenuated by {att:.1f} dB only (needs <= -40 dB)",
+                          counter="file_headers_checked")
+                sigs.add((kind0, enc, sort))
         except Exception as e:
             res.exception("destripe:exception", e, label)
     elif cls == "through-destripe":
